@@ -10,8 +10,8 @@ import (
 )
 
 func init() {
-	registerRule("gob-shapes", 20, "type-graph audit of every Go shape encoding/gob cannot carry with a JSON-visible effect", ruleGobShapes)
-	registerRule("gob-proxy-symmetry", 20, "every field of every gob proxy is set on encode and consumed on decode; the three security states are handled on both sides", ruleGobProxySymmetry)
+	registerRule("gob-shapes", 28, "type-graph audit of every Go shape encoding/gob cannot carry with a JSON-visible effect", ruleGobShapes)
+	registerRule("gob-proxy-symmetry", 48, "every field of every gob proxy is set on encode and consumed on decode; the three security states are handled on both sides", ruleGobProxySymmetry)
 	registerRule("gob-via-json", 4, "Ref's gob codec is its JSON codec wrapped: the gob law reduces to the JSON law", ruleGobViaJSON)
 	registerRule("ref-opaque", 2, "the package never writes jsonreference.Ref's classification flags nor builds one by literal", ruleRefOpaque)
 }
